@@ -36,7 +36,13 @@ RULE = ('classification: union of three finite products over '
         'the code (distinct by name). round trip: every (cascade, '
         'destination incl. hotfix x.y.z.n, pr id, valid feature-grammar '
         'source) through the real name constructors; non-trivial = source '
-        "label contains a digit, '.' or '/' (distinct by tuple).")
+        "label contains a digit, '.' or '/' (distinct by tuple). listing: "
+        'for every non-destination name of the grammar (sources, user/, '
+        'release/, robot names; with destination-like fragments such as '
+        'feature/development/11.0) the real BranchCascade.build() on an '
+        'in-memory repository holding it reads the same cascade as without '
+        'it (metamorphic; non-trivial = the name contains a destination '
+        'prefix).')
 ASSUMPTIONS = [
     'branch names come from git / the git host, hence are valid ref names; '
     'names that git check-ref-format refuses (trailing newline, spaces, '
@@ -798,6 +804,105 @@ def shard_roundtrip(ctx, shard, acc):
 
 
 # --------------------------------------------------------------------------
+# the cascade as read from a repository listing
+# --------------------------------------------------------------------------
+_LISTING_STD = ('development/4.3', 'stabilization/5.1.4', 'development/5.1',
+                'development/10.0', 'hotfix/4.3.18')
+_DEST_FRAGMENTS = ('development/11.0', 'development/11', 'development/4.4',
+                   'stabilization/7.4.0', 'stabilization/5.1.5',
+                   'hotfix/9.9.9', 'hotfix/4.3.19')
+
+
+def listing_names():
+    """Names that are NOT destinations (by the reference grammar) although
+    they contain digits, dots, slashes and version-like or destination-like
+    fragments."""
+    seen = set()
+    cands = list(rt_sources())
+    for frag in _DEST_FRAGMENTS:
+        for p in FPREFIXES + ('user/joe', 'release', 'toto'):
+            cands.append(p + '/' + frag)
+            cands.append(p + '/x-' + frag)
+        cands.append('w/5.1/feature/' + frag)
+        cands.append('q/w/7/5.1/feature/' + frag)
+    for s in cands:
+        if s in seen or not valid_ref(s):
+            continue
+        if classify(s)['kind'] in DEST_KINDS:
+            continue
+        seen.add(s)
+        yield s
+
+
+def _listing_cascade(extras, dst_name):
+    from vf import fakegit as fg
+    B, _ = _mods()
+    be = fg.MemBackend()
+    be.root(_LISTING_STD[0], 'root')
+    for n in _LISTING_STD[1:]:
+        be.branch(n, _LISTING_STD[0])
+        be.commit(n, 'on ' + n)
+    for e in extras:
+        if e not in be.dag.refs:
+            be.branch(e, _LISTING_STD[0])
+    be.tag('4.3.17', _LISTING_STD[0])
+    repo = fg.FakeRepo(be.dag)
+    c = B.BranchCascade()
+    dst = B.branch_factory(repo, dst_name)
+    try:
+        c.build(repo, dst)
+    except Exception as e:      # an outcome
+        return ('exc', type(e).__name__)
+    inside = sorted(set(
+        b.name for v in c._cascade.values() for b in v.values()
+        if b is not None and hasattr(b, 'name')))
+    return ('ok', [b.name for b in c.dst_branches],
+            list(c.ignored_branches), list(c.target_versions), inside)
+
+
+def shard_listing(ctx, shard, acc):
+    """Metamorphic: branches that are not destinations do not change the
+    cascade BranchCascade.build() reads from the repository."""
+    lo, step = shard
+    names = list(listing_names())
+    for dst_name in ('development/4.3', 'development/5.1', 'hotfix/4.3.18'):
+        base = _listing_cascade((), dst_name)
+        if base[0] != 'ok':
+            raise HarnessError('listing baseline failed: %r' % (base,))
+        for i, s in enumerate(names):
+            if i % step != lo:
+                continue
+            extras = (s, 'w/5.1/' + s, 'q/w/3/5.1/' + s) \
+                if classify(s)['kind'] == 'feature' else (s,)
+            got = _listing_cascade(extras, dst_name)
+            case = {'kind': 'listing', 'dst': dst_name, 'extra': s}
+            nontriv = any(f in s for f in ('development/', 'stabilization/',
+                                           'hotfix/'))
+            acc.case('ls|%s|%s' % (dst_name, s), nontriv,
+                     classes=['listing'], sample=case if i % 97 == 0 else None)
+            if got != base:
+                acc.violation(
+                    'C18: with branch %r in the repository (not a '
+                    'destination) the cascade for %s reads %r instead of %r'
+                    % (s, dst_name, got, base), case,
+                    {'part': 'listing', 'clause': 'phantom_destination'})
+                return
+
+
+def replay_listing(case, acc):
+    s = case['extra']
+    base = _listing_cascade((), case['dst'])
+    extras = (s, 'w/5.1/' + s, 'q/w/3/5.1/' + s) \
+        if classify(s)['kind'] == 'feature' else (s,)
+    got = _listing_cascade(extras, case['dst'])
+    if got != base:
+        acc.violation('C18: with branch %r in the repository the cascade for '
+                      '%s reads %r instead of %r' % (s, case['dst'], got,
+                                                     base), case,
+                      {'part': 'listing', 'clause': 'phantom_destination'})
+
+
+# --------------------------------------------------------------------------
 # Hypothesis raw-text differential
 # --------------------------------------------------------------------------
 ALPHABET = ('abcdefghijklmnopqrstuvwxyz' + 'TESPROJWQDFBUH' + _DIGITS +
@@ -1045,6 +1150,8 @@ def run(ctx):
     acc2 = run_shards(__name__, 'shard_roundtrip', ctx,
                       [(i, n) for i in range(n)])
     acc.merge_dump(acc2.dump())
+    acc.merge_dump(run_shards(__name__, 'shard_listing', ctx,
+                              [(i, n) for i in range(n)]).dump())
     fuzz_examples = 40000 if thorough else 1500
     have_atheris = thorough and _atheris_available()
     if thorough and not have_atheris:
@@ -1071,6 +1178,8 @@ def replay(ctx, case, acc):
     elif case.get('kind') == 'roundtrip':
         cascade, dst = build_cascade(case['cascade'], case['dst'])
         roundtrip(cascade, dst, case['pr'], case['src'], acc, case, set())
+    elif case.get('kind') == 'listing':
+        replay_listing(case, acc)
     else:
         raise HarnessError('unknown case kind %r' % case.get('kind'))
 
